@@ -518,7 +518,7 @@ func getGitHead(repoDir string) string {
 
 // writeResultEvent attaches a result file reference to a task.
 // The file must exist and be within the project root.
-func writeResultEvent(dir string, opts GlobalOptions, taskID, summary, relPath string) error {
+func writeResultEvent(dir string, opts GlobalOptions, taskID, summary, relPath string, view ...*committedView) error {
 	lockPath := filepath.Join(dir, "lock")
 	eventsPath := getEventsPath(dir)
 	repoDir := filepath.Dir(dir)
@@ -567,6 +567,9 @@ func writeResultEvent(dir string, opts GlobalOptions, taskID, summary, relPath s
 		if err != nil {
 			return err
 		}
-		return appendEvents(eventsPath, []Event{event})
+		if err := appendEvents(eventsPath, []Event{event}); err != nil {
+			return err
+		}
+		return captureCommitted(dir, view)
 	})
 }
